@@ -3,13 +3,19 @@ mod c01;
 mod c04;
 mod c08;
 mod c09;
+mod c09_stream;
 mod c10;
 mod c11;
 mod c12;
 mod c13;
 mod c19;
+mod streams_h;
 
 use vcore::{Args, Report};
+
+// counting allocator (C04 cost oracle reads it; negligible overhead for the other monitors)
+#[global_allocator]
+static A: vcore::alloc::CountingAlloc = vcore::alloc::CountingAlloc;
 
 fn main() {
     let args = Args::parse();
